@@ -299,7 +299,18 @@ def run_quantile(key):
                 return viol(f'quantile_mask(q={q}, axis={axis}, weight={weight}): point with magnitude {v} '
                             f'(threshold {thr}) has level {mk[idx][j]!r}, expected {want!r}')
             judged += 1
-    return ok(outcome=tol.digest(m), flags=['skipped'] if skipped else [], evals=1)
+    # a tuple of quantiles gives the stack of the single-quantile masks (same axis, same weight)
+    ax_arg = axis if not isinstance(axis, list) else tuple(axis)
+    try:
+        q2 = -q if q not in (0.5, -0.5) else (0.25 if q > 0 else -0.25)
+        both = np.asarray(mm.quantile_mask(x, quantile=(q, q2), axis=ax_arg, weight=weight))
+        second = np.asarray(mm.quantile_mask(x, quantile=q2, axis=ax_arg, weight=weight))
+    except Exception as e:  # noqa
+        return viol(f'quantile_mask with a tuple of quantiles raised {e!r}')
+    if both.shape != (2,) + x.shape or not np.array_equal(both[0], m) or not np.array_equal(both[1], second):
+        return viol(f'quantile_mask(quantile=({q}, {q2}), axis={axis}) is not the stack of the two single-quantile '
+                    f'masks (shape {both.shape})')
+    return ok(outcome=tol.digest(m), flags=['skipped'] if skipped else [], evals=3)
 
 
 def run_lorenz(key):
